@@ -110,11 +110,12 @@ Check(v) ==
 \* ------------------------------------------------------------------ binding: what Attach.tla can produce
 \* Reply classes of Attach.tla (comments at every Reply): the codes the modelled paths send.
 ReplyCodes(kind) ==
+  \* 401 everywhere: the session's own account was deleted meanwhile (account deletion is outside Attach.tla)
   CASE kind = "sub"      -> {200, 304, 503, 404, 500, 403, 401}   \* attached | already | locked/queue full | load failed (not found, store error) | refused
-    [] kind = "leave"    -> {200, 304, 503, 404}              \* left | not joined | locked
-    [] kind = "unsub"    -> {200, 304, 403, 409, 503, 404}    \* unsubscribed+evicted | no action | owner/me | attach first | locked
-    [] kind = "deltopic" -> {200, 304, 403, 503, 404, 500}    \* deleted | no action | forwarded: unsub classes
-    [] kind = "deluser"  -> {200}
+    [] kind = "leave"    -> {200, 304, 503, 404, 401}              \* left | not joined | locked
+    [] kind = "unsub"    -> {200, 304, 403, 409, 503, 404, 401}    \* unsubscribed+evicted | no action | owner/me | attach first | locked
+    [] kind = "deltopic" -> {200, 304, 403, 503, 404, 500, 401}    \* deleted | no action | forwarded: unsub classes
+    [] kind = "deluser"  -> {200, 401}
     [] OTHER             -> 0..999
 \* at most one subscribe/leave of a session is in flight (Add blocks): their replies come back in request order
 Inflight(e) == IsReq(e) /\ e.kind \in {"sub", "leave", "unsub"}
